@@ -147,6 +147,19 @@ def ctor(case, ctx):
     bad.append(("Axes.__setitem__ with a wrong size", lambda: a0.axes.__setitem__(D[0], Axis(L2[0], D[0]))))
     bad.append(("Axis.values setter with a wrong size", lambda: setattr(a0.axes[0], 'values', L2[0])))
     bad.append(("non-str dimension name", lambda: Axis(L[0], 3)))
+    if nd >= 2:
+        # renaming a dimension onto the name of another one would return / leave an array with duplicate dimension names
+        a1, a2, a3 = [da.DimArray(v, axes=L, dims=D) for _ in range(3)]
+        ds1 = da.Dataset(v=da.DimArray(v, axes=L, dims=D))
+        renamed = [a1, a2, a3, ds1]
+        bad.append(("set_axis(name=<existing dimension>, inplace=False)", lambda: a0.set_axis(name=D[1], axis=D[0], inplace=False)))
+        bad.append(("set_axis(name=<existing dimension>) by position, in place", lambda: a1.set_axis(name=D[0], axis=1)))
+        bad.append(("dims setter with a repeated name", lambda: setattr(a2, 'dims', tuple([D[1], D[1]] + D[2:]))))
+        bad.append(("dims setter (dict) onto an existing name", lambda: setattr(a3, 'dims', {D[0]: D[1]})))
+        bad.append(("Dataset.rename_axes onto an existing dimension", lambda: ds1.rename_axes({D[0]: D[1]}, inplace=False)))
+        bad.append(("Dataset.rename_axes onto an existing dimension, in place", lambda: ds1.rename_axes({D[0]: D[1]})))
+        bad.append(("Dataset.set_axis(name=<existing dimension>)", lambda: ds1.set_axis(name=D[1], axis=D[0], inplace=False)))
+        bad.append(("Dataset.dims setter with a repeated name", lambda: setattr(ds1, 'dims', tuple([D[1], D[1]] + D[2:]))))
     for name, fn in bad:
         res, exc = ctx.call("rejection case: " + name, fn, operands=())
         ctx.outcomes['ctor-rejections'] += 1
@@ -154,6 +167,9 @@ def ctor(case, ctx):
             ctx.v(ID, "ctor-accepts:" + name, "constructor accepted ill-formed input (%s) for dims=%r shape=%r labels=%s: got %s" % (
                 name, tuple(D), v.shape, codec.short(L, 100), common.brief_res(res)))
     probs = monitors.wf_problems(a0)
+    if nd >= 2:
+        for o_ in renamed:
+            probs = probs or (monitors.wf_problems(o_) if common.is_da(o_) else monitors.ds_problems(o_) or ([] if len(set(o_.dims)) == len(o_.dims) else ["duplicate dimension names %r" % (o_.dims,)]))
     if probs:
         ctx.v(ID, "ctor-left-illformed", "after rejected in-place changes the array is ill-formed: %s" % probs[0])
     return [('ctor', nd, tuple(sp["kinds"]), len(set(v.shape)) == nd)]
